@@ -9,7 +9,8 @@ import (
 )
 
 // Smoke test of the kit against the real binary:
-//   cd /verif/harness && go test -modfile=/verif/.build/mod/go.mod -count=1 ./proxykit
+//
+//	cd /verif/harness && go test -modfile=/verif/.build/mod/go.mod -count=1 ./proxykit
 func TestSmoke(t *testing.T) {
 	dir := t.TempDir()
 	bin, err := BuildFFSigner(filepath.Join(dir, "bin"))
